@@ -254,7 +254,10 @@ def slim(ev):
 def explain(ctx, tracefile, name):
     """A rejected trace is re-validated with one deviation enabled at a time."""
     for d in DEVS_REAL:
-        v = _validate(ctx, tracefile, name + "-" + d, "", [d])
+        try:
+            v = _validate(ctx, tracefile, name + "-" + d, "", [d])
+        except vf.Infra:
+            continue          # explanation is best effort (TLC can choke on garbage decoded from a wrapped frame)
         if v["accepted"]:
             return d
     return None
